@@ -17,6 +17,7 @@ import (
 type Event struct {
 	Seq   int    `json:"seq"`
 	Task  int    `json:"task"`
+	TName string `json:"tname,omitempty"`
 	Kind  string `json:"kind"`
 	Path  string `json:"path,omitempty"`
 	Path2 string `json:"path2,omitempty"`
@@ -97,6 +98,7 @@ type World struct {
 	handles                 map[uint64]string // handle id -> rel path
 	nextH                   uint64
 	mappings                map[uint64]string
+	closers                 map[uint64]func()
 	MaxHandles, MaxMappings int
 	OpensTotal, MmapsTotal  int
 
@@ -128,6 +130,7 @@ func NewWorld(root string, tape *Tape) *World {
 		FaultsFired: map[string]int{},
 		handles:     map[uint64]string{},
 		mappings:    map[uint64]string{},
+		closers:     map[uint64]func(){},
 		Probes:      map[string]int{},
 	}
 	cur.Store(w)
@@ -167,7 +170,7 @@ func (w *World) Emit(e Event) int {
 	w.seq++
 	e.Seq = w.seq
 	if e.Task == 0 {
-		e.Task = w.currentTaskIDLocked()
+		e.Task, e.TName = w.currentTaskLocked()
 	}
 	if w.Record {
 		w.trace = append(w.trace, e)
@@ -238,11 +241,12 @@ func (w *World) CheckFault(kind, rel string) (FaultSpec, bool) {
 
 // ---- resource ledger ----
 
-func (w *World) HandleOpened(rel string) uint64 {
+func (w *World) HandleOpened(rel string, closer func()) uint64 {
 	w.mu.Lock()
 	defer w.mu.Unlock()
 	w.nextH++
 	w.handles[w.nextH] = rel
+	w.closers[w.nextH] = closer
 	w.OpensTotal++
 	if len(w.handles) > w.MaxHandles {
 		w.MaxHandles = len(w.handles)
@@ -253,14 +257,32 @@ func (w *World) HandleOpened(rel string) uint64 {
 func (w *World) HandleClosed(id uint64) {
 	w.mu.Lock()
 	delete(w.handles, id)
+	delete(w.closers, id)
 	w.mu.Unlock()
 }
 
-func (w *World) MappingOpened(rel string) uint64 {
+// ReleaseAll force-closes every descriptor and mapping the run left open (the simulated process is dead).
+// Nothing of the run may be used afterwards.
+func (w *World) ReleaseAll() {
+	w.mu.Lock()
+	cl := w.closers
+	w.closers = map[uint64]func(){}
+	w.handles = map[uint64]string{}
+	w.mappings = map[uint64]string{}
+	w.mu.Unlock()
+	for _, f := range cl {
+		if f != nil {
+			f()
+		}
+	}
+}
+
+func (w *World) MappingOpened(rel string, closer func()) uint64 {
 	w.mu.Lock()
 	defer w.mu.Unlock()
 	w.nextH++
 	w.mappings[w.nextH] = rel
+	w.closers[w.nextH] = closer
 	w.MmapsTotal++
 	if len(w.mappings) > w.MaxMappings {
 		w.MaxMappings = len(w.mappings)
@@ -271,6 +293,7 @@ func (w *World) MappingOpened(rel string) uint64 {
 func (w *World) MappingClosed(id uint64) {
 	w.mu.Lock()
 	delete(w.mappings, id)
+	delete(w.closers, id)
 	w.mu.Unlock()
 }
 
